@@ -783,6 +783,12 @@ reprocess:
 			int arg_int;
 			memcpy(&arg_int, &buf[data_pos], sizeof(int));
 			data_pos += sizeof(int);
+			if (arg_int < 0 && fmt[fmt_pos - 1] == '.') {
+				/* a negative precision means: no precision */
+				fmt_pos--;
+				format++;
+				goto reprocess;
+			}
 			fmt_pos += snprintf(&fmt[fmt_pos],
 					   MINI_FORMAT_STR_LEN - fmt_pos,
 					   "%d", arg_int);
